@@ -164,6 +164,9 @@ func (p *Program) FuncsWithProp(prop string) []*FuncContract {
 
 func contractProps(fc *FuncContract) map[string]bool {
 	ps := map[string]bool{}
+	for _, s := range fc.Serves {
+		ps[s] = true
+	}
 	add := func(cs []*Clause) {
 		for _, c := range cs {
 			for _, p := range c.Props {
